@@ -28,6 +28,37 @@ def _invoice_of(e):
     return None
 
 
+def eq_sides(C, b, cnd, truth):
+    """for a dominating condition return (sides, equal_truth) if it is an (in)equality test, also through a local
+    synchronous helper returning bool (one level): `if !same_hash(a, b) { return .. }`"""
+    F, X = C.F, C.X
+    if cnd.kind == "call" and cnd.call.name in ("std::cmp::PartialEq::eq", "std::cmp::PartialEq::ne"):
+        sides = [strip(X.operand(b, a)) for a in cnd.call.args[:2]]
+        return sides, (truth if cnd.call.name.endswith("::eq") else (not truth))
+    if cnd.kind == "cmp" and cnd.op in ("Eq", "Ne"):
+        return [strip(X.operand(b, cnd.a)), strip(X.operand(b, cnd.b))], (truth if cnd.op == "Eq" else (not truth))
+    if cnd.kind == "call":
+        name = cnd.call.resolved or cnd.call.name
+        hb = F.by_cdef.get(name)
+        if hb is not None and hb.kind in ("Fn", "AssocFn") and hb.ret_ty == "bool" and not (F.fns.get(name) or {}).get("async"):
+            args = tuple(strip(X.operand(b, a)) for a in cnd.call.args)
+            r = mm.subst_params(strip(X.local(hb, 0)), hb.cdef, args)
+            r = strip(r)
+            neg = False
+            for a in alts(r):
+                x = a
+                while x[0] == "un" and x[1] == "Not":
+                    neg = not neg
+                    x = x[2]
+                if x[0] == "call" and x[1] in ("std::cmp::PartialEq::eq", "std::cmp::PartialEq::ne") and len(x[2]) >= 2:
+                    t = truth if x[1].endswith("::eq") else (not truth)
+                    return [x[2][0], x[2][1]], (t if not neg else not t)
+                if x[0] == "bin" and x[1] in ("Eq", "Ne"):
+                    t = truth if x[1] == "Eq" else (not truth)
+                    return [x[2], x[3]], (t if not neg else not t)
+    return None, None
+
+
 def g_hash_gate(C, rep, rid):
     rep.rule(rid, "every TrampolineInfo is built behind `invoice.payment_hash() == htlc.payment_hash` on the same invoice")
     F, X = C.F, C.X
@@ -41,14 +72,7 @@ def g_hash_gate(C, rep, rid):
         found = False
         why = "no comparison between the HTLC's payment hash and the invoice's payment hash dominates the construction"
         for cnd, truth in lib.dominating_conditions(b, bi):
-            sides = None
-            eqtruth = None
-            if cnd.kind == "call" and cnd.call.name in ("std::cmp::PartialEq::eq", "std::cmp::PartialEq::ne"):
-                sides = [strip(X.operand(b, a)) for a in cnd.call.args[:2]]
-                eqtruth = truth if cnd.call.name.endswith("::eq") else (not truth)
-            elif cnd.kind == "cmp" and cnd.op in ("Eq", "Ne"):
-                sides = [strip(X.operand(b, cnd.a)), strip(X.operand(b, cnd.b))]
-                eqtruth = truth if cnd.op == "Eq" else (not truth)
+            sides, eqtruth = eq_sides(C, b, cnd, truth)
             if not sides:
                 continue
 
@@ -98,13 +122,7 @@ def _handler_level_gate(C):
     for site in (H.entry[0].bb, H.add_calls[0].bb):
         ok = False
         for cnd, truth in lib.dominating_conditions(b, site):
-            sides = None
-            if cnd.kind == "call" and cnd.call.name in ("std::cmp::PartialEq::eq", "std::cmp::PartialEq::ne"):
-                sides = [strip(X.operand(b, a)) for a in cnd.call.args[:2]]
-                eqt = truth if cnd.call.name.endswith("::eq") else (not truth)
-            elif cnd.kind == "cmp" and cnd.op in ("Eq", "Ne"):
-                sides = [strip(X.operand(b, cnd.a)), strip(X.operand(b, cnd.b))]
-                eqt = truth if cnd.op == "Eq" else (not truth)
+            sides, eqt = eq_sides(C, b, cnd, truth)
             if not sides or not eqt:
                 continue
 
